@@ -115,7 +115,56 @@ def generate(rng, tier):
                     "-9223372036854775809", "18446744073709551615", "18446744073709551616", "00000000000000000000001", "-0000000000000000000009", "99999999999999999999", "1" + "0" * 19):
             cases.append(Case("sum.parse", [enc(body + "FILE_SIZE=" + num + "\n")], meta={"fault": "intbound", "rep": True}))
             cases.append(Case("sum.parse", [enc(body + "SIZE_PKG=" + num + "\n")], meta={"fault": "intbound", "rep": True}))
+    # is_completed against the setters: "set" means set, whatever the value - every variable in turn given a degenerate
+    # value (empty text, no lines at all, one empty line, 0, i64::MIN) or left unset, the others set normally; and random subsets
+    def setop(v, x):
+        if v in sgen.KA:
+            return "a:%d:%s" % (v, "|".join(enc(s) if s else "-" for s in x))
+        if v in sgen.KI:
+            return "i:%d:%d" % (v, x)
+        return "s:%d:%s" % (v, enc(x))
+
+    def degenerate(v):
+        if v in sgen.KA:
+            return [[], [""], ["", ""], [" "]]
+        if v in sgen.KI:
+            return [0, -1, -9223372036854775808, 9223372036854775807]
+        return ["", " ", "\u00a0", "="]
+
+    for _ in range(2 if tier == "quick" else 20):
+        e = sgen.entry(rng, extra_p=0.3)
+        for v in range(23):
+            base = [setop(w, e[w]) for w in sorted(e) if w != v]
+            have = set(w for w in e if w != v)
+            cases.append(Case("sum.ops", base, meta={"fault": "setters", "rep": False, "have": sorted(have)}))
+            for x in degenerate(v):
+                ops = list(base)
+                ops.insert(rng.randint(0, len(ops)), setop(v, x))
+                cases.append(Case("sum.ops", ops, meta={"fault": "setters", "rep": False, "have": sorted(have | {v})}))
+                if v in sgen.KA:
+                    # ... also after an earlier non-empty value, and followed by a push
+                    cases.append(Case("sum.ops", [setop(v, ["old"])] + ops, meta={"fault": "setters", "rep": True, "have": sorted(have | {v})}))
+                    cases.append(Case("sum.ops", ops + ["p:%d:%s" % (v, enc("new"))], meta={"fault": "setters", "rep": True, "have": sorted(have | {v})}))
+    for _ in range(100 if tier == "quick" else 3000):
+        e = sgen.entry(rng, extra_p=0.3)
+        have = set(rng.sample(sorted(e), rng.randint(0, len(e))))
+        if rng.random() < 0.4:
+            have |= set(sgen.REQUIRED) & set(e)
+        ops = [setop(w, rng.choice(degenerate(w)) if rng.random() < 0.3 else e[w]) for w in sorted(have)]
+        rng.shuffle(ops)
+        cases.append(Case("sum.ops", ops, meta={"fault": "setters", "rep": False, "have": sorted(have)}))
     return cases
+
+
+def laws(cases, obsI):
+    out = []
+    for i, c in enumerate(cases):
+        if c.op == "sum.ops" and obsI[i] and "|C=" in obsI[i]:
+            flag = obsI[i].split("|C=")[1][:1]
+            want = "T" if all(v in c.meta["have"] for v in sgen.REQUIRED) else "F"
+            if flag != want:
+                out.append({"kind": "is_completed", "idxs": [i], "detail": "variables set: %s; is_completed() = %s" % (c.meta["have"], flag)})
+    return out
 
 
 def nontrivial(c):
